@@ -96,6 +96,19 @@ def partition (key : Option (List Nat)) (all avail : List Nat) (c : Nat) : Optio
     if all = [] then none else
     all[((pyMurmur2 k) &&& 0x7FFFFFFF) % all.length]?
 
+/-- sorted set of naturals: what iterating `set(range-like ints)` yields -/
+def insertU (a : Nat) : List Nat → List Nat
+  | [] => [a]
+  | x :: r => if a < x then a :: x :: r else if a = x then x :: r else x :: insertU a r
+def usort (l : List Nat) : List Nat := l.foldr insertU []
+
+/-- `AIOKafkaProducer._partition` over real cluster metadata: `leaders` lists
+    `(partition, leader node id)` of the topic, `-1` = no leader
+    (`ClusterMetadata.partitions_for_topic` / `available_partitions_for_topic`) -/
+def partitionMd (key : Option (List Nat)) (leaders : List (Nat × Int)) (c : Nat) : Option Nat :=
+  partition key (usort (leaders.map (·.1)))
+    (usort ((leaders.filter (fun pl => pl.2 != -1)).map (·.1))) c
+
 /-- what the Java client's `DefaultPartitioner` computes for a keyed record -/
 def javaKeyedIndex (key : List (BitVec 8)) (n : Nat) : Nat :=
   (jToPositive (javaMurmur2 key)).toNat % n
@@ -107,6 +120,13 @@ def holdsKeyed (key : List (BitVec 8)) (all : List Nat) (result : Nat) : Bool :=
 /-- executable statement of the unkeyed clause on an observation `(avail, result)` -/
 def holdsUnkeyed (avail : List Nat) (result : Nat) : Bool :=
   avail.isEmpty || avail.contains result
+
+def parseLeaders (s : String) : Option (List (Nat × Int)) :=
+  if s == "-" then some [] else
+  (s.splitOn ",").mapM fun item =>
+    match item.splitOn ":" with
+    | [p, l] => do some ((← p.toNat?), (← l.toInt?))
+    | _ => none
 
 open AkVerif.Util in
 /-- driver: `murmur <hex>` and `part <hex|none> <all> <avail> <choice>` -/
@@ -123,6 +143,13 @@ def handle : List String → Option String
     let avail ← parseNatList avail
     let c ← parseNat c
     match partition key all avail c with
+    | some p => some (toString p)
+    | none => some "raise"
+  | ["partmd", k, leaders, c] => do
+    let key ← if k == "none" then some none else (parseHex k).map some
+    let ls ← parseLeaders leaders
+    let c ← parseNat c
+    match partitionMd key ls c with
     | some p => some (toString p)
     | none => some "raise"
   -- the property itself, evaluated on an observed result (`S`, failing-input search)
